@@ -153,6 +153,11 @@ def make_body(scn):
                 s.advance(1.0)
                 s.quiesce()
                 continue
+            if keepalive and s.choose(2, ("deliver-next", "let-1.5s-pass-first"), cost=1) == 1:
+                # a timer (keepalive, poll loop) lands before the next packet: one such deviation per execution
+                s.advance(1.5)
+                s.quiesce()
+                order.append("tick")
             k = s.choose(len(pipes), None, cost=0) if len(pipes) > 1 else 0
             name, q = pipes[k]
             q.deliver(1)
@@ -313,7 +318,7 @@ def run_items(items, acc):
                                "tx_peer": [F.mname(t) for t in obs["tx_p"]], "exc": (obs["exc_i"], obs["exc_p"]),
                                "effects": obs["effects"], "elapsed_virtual_s": round(obs["elapsed"], 1)},
                               {"scn": scn, "choices": ex.choices})
-        res = explore.explore(body, 1 if scn[2] else 0, "delay", cap=4000, on_exec=on_exec,
+        res = explore.explore(body, 1 if (scn[2] or scn[3]) else 0, "delay", cap=4000, on_exec=on_exec,
                               sched_kw={"horizon": S.EPOCH + 400, "step_budget": 3_000_000})
         acc.count("scenarios")
         acc.count("crossing_orders", res.executions)
